@@ -53,7 +53,7 @@ PROPS["C03"] = {
 PROPS["C05"] = {
     "title": "A new version becomes active only when the promotion rule allows it",
     "level": "exploration",
-    "level_text": "The promotion lattice of the property (strategy x age-vs-duration incl. the boundary instants x noRestartsDuration x last restart x pause source x unpaused x canary-valid x failed x recorded active set present / being deleted under a finalizer / gone x recorded status.canary; 36288 points) is enumerated completely through the real ExtendedDaemonSet Reconcile on a store prepared by the real reconciler, on the virtual clock; each switch of status.activeReplicaSet is judged by a reference rule (three-valued at the boundary instants). The same rule is checked after every EDS reconcile of generated histories.",
+    "level_text": "The promotion lattice of the property (strategy x age-vs-duration incl. the boundary instants x noRestartsDuration x last restart x pause source x unpaused x canary-valid x failed x recorded active set present / being deleted under a finalizer / gone x recorded status.canary; 48384 points) is enumerated completely through the real ExtendedDaemonSet Reconcile on a store prepared by the real reconciler, on the virtual clock; each switch of status.activeReplicaSet is judged by a reference rule (three-valued at the boundary instants). The same rule is checked after every EDS reconcile of generated histories.",
     "level_note": "Exhaustive only for the finite lattice named here (exhaustive_subspaces in the evidence); durations other than the sampled ones and interleavings are covered by sampling in the history tests.",
     "technique": "exhaustive enumeration of a finite input lattice + property-based sampling (rapid) against a reference promotion rule; stateful histories with a per-reconcile invariant",
     "quick": {"jobs": [rapid_job("lattice-sample", "^TestC05Lattice$", 1500), rapid_job("lattice-all", "^TestC05Exhaustive$", 1, shards=4)]},
@@ -140,8 +140,8 @@ PROPS["C13"] = {
     "level_text": "Stateful property test over template-edit words on a small alphabet (A->B->A, A->B->C, edits during a canary) with all reconcilers interleaved: no replica set is created while one with the same template hash exists; a created set's template, hash annotation and templateGeneration equal spec.template and its MD5; every created pod carries its creator's hash; a replica-set Delete never hits the set that is active or matches spec.template after the reconcile, only sets whose status as read is all zero, and a failed canary not before two minutes; the PodTemplate equals spec.template and its hash after its reconcile.",
     "level_note": SM_NOTE,
     "technique": "stateful property-based testing (rapid) with per-step invariants; template hash recomputed independently (MD5 of the JSON rendering)",
-    "quick": {"jobs": [rapid_job("sm", "^TestC13SM$", 750, shards=4)]},
-    "thorough": {"jobs": [rapid_job("sm", "^TestC13SM$", 4000, shards=16, timeout="50m")]},
+    "quick": {"jobs": [rapid_job("sm", "^TestC13SM$", 750, shards=4), rapid_job("revert", "^TestC13Revert$", 150, shards=2)]},
+    "thorough": {"jobs": [rapid_job("sm", "^TestC13SM$", 4000, shards=14, timeout="50m"), rapid_job("revert", "^TestC13Revert$", 2000, shards=4, timeout="50m")]},
 }
 
 PROPS["C14"] = {
@@ -213,10 +213,10 @@ PROPS["C07"] = {
 PROPS["C11"] = {
     "title": "Any failed API call or controller crash is recovered without breaking safety",
     "level": "fault_enumeration",
-    "level_text": "Corpus of nine scenarios (first deployment, rolling update, canary start, promotion by validation and by time, failure and rollback by command / restart storm / timeout, node removal and taint, settings change, migration from a DaemonSet) played by milestone-driven scripts (canary scenarios with an uneven restart history of the daemon pods, so that the node choice depends on what the selection reads). The failure-free run records the K API calls of the controllers (reads included); a faulted re-run injects, at call k, one of {call rejected with a generic error, call rejected with the API status error typical for the verb (AlreadyExists, Conflict, TooManyRequests, ServerTimeout), call applied but answer lost, process stop before the call, process stop after the call} (fresh controller instances after a stop), then failure-free fair rounds until quiet. Oracle: the safety monitors (eligible/once-per-node creation, availability budget, canary confinement and list growth, promotion rule, ownership, no panic - the five safety properties the statement lists) after every step, and the final canonical state (pods per node with template hash / readiness / labels / resources, EDS status, replica sets) equal to the failure-free run's modulo names and timestamps. Quick: sampled positions, kinds and pairs over generated configurations plus the exhaustive single-fault sweep of three scenarios; thorough: every single position x kind for all nine scenarios (exhaustive for singles of the fixed configuration) and more sampled pairs.",
+    "level_text": "Corpus of ten scenarios (first deployment, rolling update, canary start, promotion by validation and by time, failure and rollback by command / restart storm / timeout, node removal and taint, settings change, migration from a DaemonSet, canary paused / unpaused / validated) played by milestone-driven scripts (canary scenarios with an uneven restart history of the daemon pods, so that the node choice depends on what the selection reads). The failure-free run records the K API calls of the controllers (reads included); a faulted re-run injects, at call k, one of {call rejected with a generic error, call rejected with the API status error typical for the verb (AlreadyExists, Conflict, TooManyRequests, ServerTimeout), call applied but answer lost, process stop before the call, process stop after the call} (fresh controller instances after a stop), then failure-free fair rounds until quiet. Oracle: the safety monitors (eligible/once-per-node creation, availability budget, canary confinement and list growth, promotion rule, ownership, no panic - the five safety properties the statement lists) after every step, and the final canonical state (pods per node with template hash / readiness / labels / resources, EDS status, replica sets) equal to the failure-free run's modulo names and timestamps. Quick: sampled positions, kinds and pairs over generated configurations plus the exhaustive single-fault sweep of four scenarios; thorough: every single position x kind for all ten scenarios (exhaustive for singles of the fixed configuration) and more sampled pairs.",
     "level_note": "Exhaustive for single faults of one fixed configuration per scenario; other configurations and pairs are sampled. A stopped process is modelled as every later call of that reconcile failing, then fresh reconciler instances.",
     "technique": "fault enumeration over the recorded API-call sequence (every index x fault kind) + property-based sampling (rapid) of configurations and fault pairs; differential oracle against the failure-free run",
-    "quick": {"jobs": [rapid_job("sampled", "^TestC11Sampled$", 40, shards=4), rapid_job("singles", "^TestC11Exhaustive$", 1, shards=6, env={"VERIF_SCENARIOS": "rolling-update,failure-rollback,canary-start"})]},
+    "quick": {"jobs": [rapid_job("sampled", "^TestC11Sampled$", 40, shards=4), rapid_job("singles", "^TestC11Exhaustive$", 1, shards=6, env={"VERIF_SCENARIOS": "rolling-update,failure-rollback,canary-start,pause-unpause-validate"})]},
     "thorough": {"jobs": [rapid_job("sampled", "^TestC11Sampled$", 150, shards=6, timeout="50m"), rapid_job("singles", "^TestC11Exhaustive$", 1, shards=10, timeout="50m")]},
 }
 
